@@ -1,6 +1,10 @@
 package main
 
-import "fmt"
+import (
+	"fmt"
+
+	"golang.org/x/tools/go/ssa"
+)
 
 func init() {
 	register("C05", propMeta{
@@ -8,6 +12,7 @@ func init() {
 		NotDecided:  "exactness of the sub-results themselves (C01/C03), numeric score values.",
 		Assumptions: []string{"sub-index searches satisfy C01-C04", "sort.Slice orders by less"},
 	}, func(r *Run) {
+		ruleErrProp(r, "C05.ERRPROP", "hybrid_search_index")
 		k, err := hybridKindOf(r.W)
 		if err != nil {
 			r.Unres("C05.KIND", "hybrid", err.Error())
@@ -44,6 +49,7 @@ func init() {
 		// a removed document must leave every modality it was added to (C06.RM, hybrid instance)
 		if hk, err := hybridKindOf(r.W); err == nil {
 			ruleHybridRemove(r, hk)
+			ruleForwardGuards(r, "C05.PARAMS", []*ssa.Function{hk.Execute}, map[string]bool{"WithNProbes": true, "WithEfSearch": true, "WithThreshold": true}, 3)
 		}
 		r.FloorCheck("C05.CAND", 6)
 		r.FloorCheck("C05.BRANCH", 3)
@@ -56,6 +62,7 @@ func init() {
 		NotDecided:  "'every later result unchanged' as a behavioural equality; ids across processes.",
 		Assumptions: []string{"sub-index Remove is a soft delete", "sync/atomic semantics"},
 	}, func(r *Run) {
+		ruleErrProp(r, "C06.ERRPROP", "hybrid_search_index", "bm25_index.go", "metadata_index.go", "flat_index.go", "hnsw_index.go", "ivf_index.go", "ivfpq_index.go", "pq_index.go")
 		hk, err := hybridKindOf(r.W)
 		if err != nil {
 			r.Unres("C06.KIND", "hybrid", err.Error())
@@ -89,6 +96,7 @@ func init() {
 		ruleTextRemoveMarks(r, "C06.REMOVE", tk)
 		ruleMetaRemoveCovers(r, "C06.RM.meta", mk)
 		ruleHybridRemove(r, hk)
+		ruleHybridFlagTables(r, hk)
 		ruleIDCounter(r, "C06.ID")
 		r.FloorCheck("C06.ATOMIC.hybrid", 4)
 		r.FloorCheck("C06.REVIVE", 12)
